@@ -14,7 +14,8 @@ from ..core.prop import Prop
 from ..gen import tables as T
 from ..seams import faults as F
 
-STR_POOLS = [['a', 'b', 'ab', 'abc', 'B', 'é', 'zz'], ['a', 'a ', 'a!', 'a/', 'a0', 'aa', 'a~'], ['x', 'xy', 'xyz', 'x ', 'x-'], ['é', 'e', 'ë', 'z', 'Z', '\U0001F600', 'זה'], ['k1', 'k10', 'k2', 'k'], ['total', 'total\tnet', 'total\nof year', 'total\r\n', 'total ', 'tota', 'total\x01'],
+STR_POOLS = [['a', 'b', 'ab', 'abc', 'B', 'é', 'zz'], ['a', 'a ', 'a!', 'a/', 'a0', 'aa', 'a~'], ['x', 'xy', 'xyz', 'x ', 'x-'], ['é', 'e', 'ë', 'z', 'Z', '\U0001F600', 'זה'], ['k1', 'k10', 'k2', 'k'], ['e\u0301', 'f', 'z', 'e', '\u00e9', 'A\u030a', '\u212b', '\u00c5', 'a'],      # composed / decomposed spellings are different strings
+             ['total', 'total\tnet', 'total\nof year', 'total\r\n', 'total ', 'tota', 'total\x01'],
              ['10', '9', '1.0', '1', ' 7', '1e3', '-5', 'nan', 'inf', '1_0', 'zebra']]     # text that looks like numbers is still text
 NUM_POOLS = [[0, 1, -1, 2, 10, -10, 100], [0.5, -0.5, 1.25, -1.25, 0.0, 2.0], [1e10, -1e10, 1e-5, -1e-5, 3.0, -3.0], [1e300, -1e300, -1e232, 1e200, -1e200, 5.0],
              [decimal.Decimal('1.5'), decimal.Decimal('-2.25'), decimal.Decimal('100'), decimal.Decimal('0.001'), 7, -7.5], [2**40, -2**40, 2**52, 12345, -12345], [0, 0.0, -0.0, 1, -1],
